@@ -148,6 +148,20 @@ example :
     behaviour P0 (reset used Flags.empty) [.pushObject, .string nm] = [.ok 2 0 1 none, .ok 2 1 7 (some nm)] := by
   decide +kernel
 
+/-- `stateMachine.Floor` (raised while user code runs) is among the things `reset` re-initialises:
+a coder abandoned inside a user call refuses to close the enclosing array (`errEnclosingEnd`);
+after `reset` — whatever the floor was — it behaves like a new one (instance of `reset_fresh`). -/
+theorem floor_cleared_by_reset :
+    let P0 : Params := ⟨10, 0⟩
+    let inUser := run P0 (fresh Flags.empty) [.pushArray, .enterUser]
+    inUser.floor = 1 ∧
+    behaviour P0 inUser [.popArray] = [.err .enclosingEnd] ∧
+    (reset inUser Flags.empty).floor = 0 ∧
+    behaviour P0 (reset inUser Flags.empty) [.pushArray, .popArray] =
+      behaviour P0 (fresh Flags.empty) [.pushArray, .popArray] ∧
+    behaviour P0 (fresh Flags.empty) [.pushArray, .popArray] = [.ok 2 0 1 none, .ok 1 1 2 none] := by
+  decide
+
 /-! ### Full statement that stays validation-only -/
 
 /-- The concurrent semantics of the real library: NOT modelled (sync.Pool, the Go memory model,
